@@ -214,6 +214,13 @@ impl Backend for PostgresBackend {
     ) -> BoxFuture<'_, Result<(), Error>> {
         let pass_key = pass_key.into_owned();
         Box::pin(async move {
+            if method == StoreKeyMethod::RawKey && pass_key.is_empty() {
+                // as in init_keys: a blank raw key would resolve to a random, unknown key
+                return Err(err_msg!(
+                    Input,
+                    "Cannot re-key a store with a blank raw key"
+                ));
+            }
             let (store_key, store_key_ref) = unblock(move || method.resolve(pass_key)).await?;
             let store_key = Arc::new(store_key);
             let mut conn = self.conn_pool.acquire().await?;
